@@ -109,15 +109,16 @@ Proof. exact css_forms_equivalent. Qed.
 Print Assumptions css_forms_agree.
 
 (* Plain (non-component) classes in the MRO.  PARTIAL: the literal reading "nearest class of ANY kind that defines
-   either member" is proved only under the premise that no plain class of the MRO defines a member of the pair
-   (then the code's choice, nearest_defining over component classes, is that class) ... *)
+   either member" is proved under the guard that no plain class defines a member of the pair BEFORE the class the code
+   picks (`walked` = the classes the MRO walk passes first; the whole MRO when no component class defines the pair).
+   Missing: hierarchies where a plain mixin defines template / js / css ahead of every component definer ... *)
 Theorem attr_nearest_any_class_partial : forall t c p fm m,
-  mro_of t c = Some m -> (forall b, In b m -> plain_definer t p b = false) ->
+  mro_of t c = Some m -> (forall b, In b (walked t p m) -> plain_definer t p b = false) ->
   attr_spec t c p fm = match nearest_any t p m with Some cl => pair_value fm (get_pair p cl) | None => None end.
-Proof. exact attr_nearest_any_no_plain_definer. Qed.
+Proof. exact attr_nearest_any_guarded. Qed.
 Print Assumptions attr_nearest_any_class_partial.
 
-(* ... and REFUTED without it for the code as it is: `_get_comp_cls_attr` skips classes without _component_media, so a
+(* ... where it is REFUTED for the code as it is (KNOWN finding): `_get_comp_cls_attr` skips classes without _component_media, so a
    member defined by a plain mixin is ignored (class M: template = 1; class P(Component): template = 2; class C(M, P):
    C.template is P's).  Replayed on the real code by corpus/C16/plain-mixin-pair.json, trigger c16-plain-mixin-pair-ignored. *)
 Theorem attr_nearest_any_class_refuted : exists t c p fm m,
@@ -165,14 +166,19 @@ Proof.
   - vm_compute. intros l H. repeat (destruct H as [<- | H]; [reflexivity|]). contradiction.
 Qed.
 
-(* Non-vacuity of attr_nearest_any_class_partial: in the diamond of premises_satisfiable no plain class defines `js`. *)
-Example no_plain_definer_satisfiable :
+(* Non-vacuity of attr_nearest_any_class_partial: class P(Component): js = 7; class M: template = 5, js = 6 (plain);
+   class C(P, M).  MRO [C; P; Component; Generic; M; object].  For js the code picks P, which precedes the plain
+   definer M: the guard holds although a plain class defines the pair, and P's value is the nearest of any kind.
+   For template M is the only definer and is walked past: the guard fails there (that is the known finding). *)
+Example guard_satisfiable :
   let t := [Cls [] false None [] (None, None) (None, None) (None, None);
             Cls [0] false None [] (None, None) (None, None) (None, None);
             Cls [1] true None [] (None, None) (None, None) (None, None);
             Cls [2] true None [] (None, None) (Some 7%N, None) (None, None);
-            Cls [0] false None [] (Some 5%N, None) (None, None) (None, None);
+            Cls [0] false None [] (Some 5%N, None) (Some 6%N, None) (None, None);
             Cls [3; 4] true None [] (None, None) (None, None) (None, None)] in
-  mro_of t 5 = Some [5; 3; 2; 1; 4; 0] /\ forallb (fun b => negb (plain_definer t PJs b)) [5; 3; 2; 1; 4; 0] = true /\
-  attr_spec t 5 PJs false = Some 7%N /\ plain_definer t PTpl 4 = true.
+  mro_of t 5 = Some [5; 3; 2; 1; 4; 0] /\ walked t PJs [5; 3; 2; 1; 4; 0] = [5] /\
+  forallb (fun b => negb (plain_definer t PJs b)) (walked t PJs [5; 3; 2; 1; 4; 0]) = true /\
+  plain_definer t PJs 4 = true /\ attr_spec t 5 PJs false = Some 7%N /\
+  existsb (plain_definer t PTpl) (walked t PTpl [5; 3; 2; 1; 4; 0]) = true /\ attr_spec t 5 PTpl false = None.
 Proof. vm_compute. repeat split. Qed.
